@@ -64,7 +64,8 @@ class Contract:
                on_raise=None, gen_post=None, setup=None, hints=None,
                locals_shapes=None, memo=False, reads=None, at_calls=None,
                binds=None, fn_qualname=None, const_args=None, impl=None,
-               returns=None, define_fresh=None, assumed=None):
+               returns=None, define_fresh=None, assumed=None,
+               at_continue=None):
     self.qualname = qualname
     self.params = params or {}            # name -> Shape (self excluded)
     self.result = result                  # Shape of the result (call side)
@@ -105,6 +106,10 @@ class Contract:
     self.const_args = const_args or {}
     # impl: trusted direct implementation of a call (library-like helper)
     self.impl = impl
+    # innermost loop target text -> clauses that must hold at every
+    # `continue` of that loop ("every omission is a documented one")
+    self.at_continue = {k: clauses(v, props) for k, v in (
+        at_continue or {}).items()}
     # text: this contract is used at call sites but its body is NOT verified
     self.assumed = assumed
     # returns: fn(s) -> the value the call returns (a spec-function term);
